@@ -348,7 +348,7 @@ func TestC14(t *testing.T) {
 	rec := NewRec("C14", c14Rule)
 	defer rec.Finish(t)
 	rec.EnableJournal()
-	rec.RequireClass("peer_stops_reading_mid_request", "reverse_handler_running_across_reconnect", "w_invalid_inbound_frames", "close_during_own_write", "w_calls", "w_cancel_call", "w_streams", "w_cancel_sub", "w_reverse", "w_pings", "w_reconnect", "multi_frame", "with_delays")
+	rec.RequireClass("reverse_handler_running_across_reconnect", "w_invalid_inbound_frames", "w_calls", "w_cancel_call", "w_streams", "w_cancel_sub", "w_reverse", "w_pings", "w_reconnect", "multi_frame", "with_delays")
 	var msgs int64
 	run := func(ft failer, c c14Case) {
 		nt, cl := c14NT(c)
@@ -384,6 +384,7 @@ func TestC14(t *testing.T) {
 			}
 		}
 		if sh == 0 {
+			rec.RequireClass("peer_stops_reading_mid_request", "close_during_own_write") // grid cases of the first shard
 			c := base
 			c.Garbage = 40
 			c.Sizes = []int{40000, 20000, 9000}
